@@ -1,4 +1,5 @@
 """C13 - an exception at any point leaves the render state consistent (inductive step per construct kind)."""
+import sys
 import types
 import z3
 
@@ -149,6 +150,26 @@ def handler_case(LKm, cfg):
         t = lk.get_template("main")
     # data named like builtins (the error page must not read its own helpers through the failed render's context)
     extra = dict(max=3, min=2, len=1, range=0, str="s") if cfg.get("data_named_like_builtins") else {}
+    if cfg.get("entry") == "render_context":
+        # the caller owns the Context and its buffer: the outcome is what that buffer holds afterwards
+        import io
+        RTm = sys.modules[LKm.__name__.rsplit(".", 1)[0] + ".runtime"]
+        buf = io.StringIO()
+        ctx = RTm.Context(buf, boom=boom, **extra)
+        try:
+            t.render_context(ctx)
+            out = buf.getvalue()
+            res = ("returned", out if len(out) < 80 else ("error page naming %s" % type(E).__name__ if type(E).__name__ in out else "some long text"))
+        except BaseException as e:
+            res = ("raised", "the same object" if e is E else "another exception: %r" % (e,))
+        state["raise"] = False
+        buf2 = io.StringIO()
+        try:
+            t.render_context(RTm.Context(buf2, boom=boom, **extra))
+            again = buf2.getvalue()
+        except BaseException as e:
+            again = "raised %r" % (e,)
+        return res, calls, again
     try:
         out = t.render_unicode(boom=boom, **extra)
         res = ("returned", out if len(out) < 80 else ("error page naming %s" % type(E).__name__ if type(E).__name__ in out else "some long text"))
@@ -183,6 +204,7 @@ def handler_expected(cfg):
 def h_handlers(p):
     cfg = dict(site=list(H_SITES)[p.choose(len(H_SITES), "site")], error_handler=[None, "accept", "decline"][p.choose(3, "error_handler")],
                format_exceptions=bool(p.choose(2, "format_exceptions")), exception=list(KINDS)[p.choose(len(KINDS), "exception_kind")])
+    cfg["entry"] = ["render_unicode", "render_context"][p.choose(2, "entry_point")]
     if cfg["format_exceptions"]:
         cfg["data_named_like_builtins"] = bool(p.choose(2, "data_named_like_builtins"))
     if cfg["site"] == "include":
@@ -306,6 +328,10 @@ sys.exit(1 if bad else 0)
 
 
 def classify(c):
+    h_ = (c.get("input") or {}).get("handlers") or {}
+    if h_.get("entry") == "render_context" and h_.get("format_exceptions") and h_.get("error_handler") != "accept" and \
+            not (h_.get("include_error_handler") == "accept" and h_.get("site") == "include" and h_.get("exception") == "Exception"):
+        return "C13-render-context-format-exceptions"
     return None
 
 
